@@ -161,6 +161,17 @@ def load_single_reply_histories():
     return out
 
 
+def load_near_collisions():
+    out = []
+    p = os.path.join(core.VERIF, "corpus", "C06_near_collisions.txt")
+    if os.path.exists(p):
+        for line in open(p, encoding="utf-8"):
+            parts = line.rstrip("\n").split("\t")
+            if len(parts) == 5:
+                out.append((parts[0], parts[1], parts[3]))
+    return out
+
+
 def check_legality(rep, pid, tier_sizes, seed):
     """C06 (announced move legal, none iff no legal move) and C18 (pv lines playable), shared runs."""
     n, maxdepth = tier_sizes
@@ -191,8 +202,18 @@ def check_legality(rep, pid, tier_sizes, seed):
     # the side to move has one legal move and it is the move the root's repetition guard would take out
     for start, ms, only in load_single_reply_histories():
         cases.append(["ttnew", "position fen %s moves %s" % (start, ms), "obs", "search 3 -1 0", "search 1 -1 0", "search - 0 0"])
+    # unrelated positions whose hashes agree in 32 (24) of their 64 bits: ordinary for a table that keys and verifies its
+    # entries by the whole hash; confused at once by one that uses less (corpus/C06_near_collisions.txt, tools/gen_near_collisions.py)
+    per_kind = Counter()
+    for kind, a, b in load_near_collisions():
+        per_kind[kind] += 1
+        if per_kind[kind] > (6 if n < 1000 else 40):
+            continue
+        for x, y in ((a, b), (b, a)):
+            cases.append(["ttnew", "new " + x, "obs", "search 3 -1 0", "new " + y, "obs", "search 1 -1 0", "search 2 -1 0"])
     cases += gen_histories(r, n, maxdepth, roots.ALL)
     stats, kinds = Counter(), Counter()
+    stats["near_collision_pairs"] = sum(min(v, 6 if n < 1000 else 40) for v in per_kind.values())
     rust, lean = run_pair(rep, cases)
     first = correspondence(rep, pid, cases, rust, lean, stats)
     q = []
